@@ -22,6 +22,9 @@ CLAIMS = {
     "C02": dict(engine="kani+mirsym", technique=KB + " (prefix arithmetic); " + MS + " (pool membership of every grant)", design="3/C02",
                 text="Solver-decided: Prefix4 / Ipv4Subnet network, netmask, broadcast and containment equal mask arithmetic for all addresses and prefix lengths; every address granted by allocate_address is a member of the address set handed down by the policy layer (all grant paths, inductive step as C01).",
                 note="NOT decided (outside both engines: HashSet construction inside iterator closures, YAML walker): that build_default_config / apply-subnet / apply-range expand to exactly the documented host set, reservation subtraction, draining a pool through real packets. " + POOL_NOTE),
+    "C03": dict(engine="mirsym", technique="symbolic execution of rustc MIR into SMT (z3) of create_in_reply, whose async body is lifted verbatim into a synchronous fn on every run", design="3/C03",
+                text="Solver-decided for upstream replies of bounded section shape (<= 3 records per section) with every record field, rcode and header bit symbolic and client queries with symbolic id/question: the reply assembled by create_in_reply carries the client's id and question, is marked as a response, and its rcode, answer, authority and additional sections are the upstream's record by record and in order.",
+                note="Assumes the syntactic lifting (strip .await, add_edns -> no-op: it only fills the reply's own OPT options) preserves the body; derived Clone = structural copy. NOT decided: the upstream query (create_outquery), id matching and retry in outquery.rs (async sockets), the wire codec (C14, not claimed), TTL ageing in the cache (C06)."),
     "C05": dict(technique=KB + " on parser skeletons (length/type fields enumerated over boundary values, contents symbolic)", design="3/C05",
                 text="Solver-decided panic-freedom (Kani's overflow, bounds, unwrap, assert checks + unwinding assertions) of: the pktparser cursor (any 3 operations, buffers <= 8 octets), dhcppkt::parse at every field-boundary truncation and on fully symbolic 241-octet headers, EDNS COOKIE/EDE accessors for option lengths 0..40, LLDP TLV / management-address / packet decoders and (where present) ICMPv6 option decoders on skeleton families.",
                 note="NOT decided: arbitrary byte strings beyond the skeleton families and sizes stated per obligation; DHCP option decoding through parse_options and the DNS message parser on symbolic input (HashMap inserts / symbolic-length copies are out of CBMC's reach); stack depth of recursive name compression; 'the service still answers the next request' (process liveness; socket loops such as lldp/mod.rs:24 buffer[14..]). Kani models the dev profile (overflow checks on)."),
@@ -31,9 +34,9 @@ CLAIMS = {
     "C07": dict(technique="bounded model checking (Kani/CBMC) of the reply-source-address conversion only", design="3/C07",
                 text="Solver-decided for all 2^32 / 2^128 addresses: the address the kernel reported as the query's destination is, byte for byte, the address placed in the reply's IP_PKTINFO/IPV6_PKTINFO control message (std_to_libc_in_addr / in6_addr, RecvMsg::local_ip, ControlMessage::convert_to_cmsg). This is ONE mechanism of C07 (src(resp)=dst(q) on IPv4-only and IPv6 listeners).",
                 note="NOT decided here: exactly-one-reply, matching of answers to questions under reordering/duplication/loss, retransmission and SERVFAIL-on-silence. Those are tokio concurrency over sockets; Kani does not model concurrency and coroutine MIR is outside the MIR->SMT encoder. Trusted: Kani's model of libc structs, little-endian x86_64 target."),
-    "C08": dict(technique=KB + " of prefix containment and ACL evaluation", design="3/C08",
-                text="Solver-decided over all addresses and prefix lengths (host bits free): Prefix4/Prefix6/Prefix::contains for v4, v6 and v4-mapped clients equals mask semantics on the written prefix; require_permission / Acl::check on rule lists of bounded concrete shape (<= 3 rules, subnet lists of 0..2 prefixes, unix flag absent/true/false) with symbolic contents, network and unix-socket clients, all 4 operations: granted <=> the first matching rule has the permission bit; no match => NotAuthenticated; default_acls.",
-                note="NOT decided: which permission each HTTP path asks for (hyper request types and a DhcpService holding sockets cannot be built under Kani) and the async DNS ACL entry point (reaches the tokio/socket stack: kani-compiler ICE; lifted copy exceeds CBMC memory). Rule lists bounded as stated per obligation."),
+    "C08": dict(engine="kani+mirsym", technique=KB + " of prefix containment and ACL evaluation; symbolic execution of rustc MIR into SMT (z3) of the lifted DNS ACL gate", design="3/C08",
+                text="Solver-decided over all addresses and prefix lengths (host bits free): Prefix4/Prefix6/Prefix::contains for v4, v6 and v4-mapped clients equals mask semantics on the written prefix; require_permission / Acl::check on rule lists of bounded concrete shape (<= 3 rules, subnet lists of 0..2 prefixes, unix flag absent/true/false) with symbolic contents, network and unix-socket clients, all 4 operations: granted <=> the first matching rule has the permission bit; no match => NotAuthenticated; default_acls. (mirsym) the DNS entry point DnsAclHandler::handle_query (async body lifted verbatim): dns-recursion is checked exactly once for every query whatever RD/type/port, a refused client gets RefusedByAcl and never reaches routing, cache or upstream.",
+                note="NOT decided: which permission each HTTP path asks for (hyper request types and a DhcpService holding sockets cannot be built under Kani; coroutine MIR outside the encoder). In the mirsym obligation require_permission's verdict is an arbitrary input (it is decided by the Kani harnesses). Rule lists bounded as stated per obligation."),
     "C09": dict(engine="mirsym", technique=MS, design="3/C09", note=POOL_NOTE + " Known finding F-C09-1 (known_findings.json) is reported, not raised.",
                 text="Solver-decided on the same inductive step as C01: a client holding an unexpired lease inside the pool gets one of those addresses (the named one if it holds it); a request is refused only with NoAssignableAddress and only if every pool address is held, unexpired, by another client. The claims are checked separately with and without the pre-state condition of known finding F-C09-1, so any violation outside that condition is still raised."),
     "C10": dict(engine="mirsym", technique=MS, design="3/C10", note=POOL_NOTE + " NOT decided: that the OFFER/ACK actually carries option 51 (reply assembly is HashMap-based, outside the encoder).",
@@ -43,9 +46,9 @@ CLAIMS = {
                 note="NOT decided: decoding of option multisets through the real parse_options and encoding from the real map (HashMap: out of CBMC's reach) - the decoder side is a reference decoder; payloads > 7 octets; which destination recvdhcp chooses (async socket code; only the flag predicate is decided). UDP-checksum harnesses exceed 14 GB at unwind 12 and are reported inconclusive where they do."),
     "C13": dict(engine="mirsym", technique=MS, design="3/C13", note=POOL_NOTE + " NOT decided: the message-type dispatch and foreign-server-id rejection in handle_pkt/handle_request and the echoed header fields (HashMap-based option access, outside the encoder).",
                 text="Solver-decided for the lease-store half of C13 on the inductive step: a successful allocation changes only the row of the granted address, a refused one changes nothing (no write is executed on any error path)."),
-    "C15": dict(technique=KB + " of the suffix relation and ordering kernels", design="3/C15",
-                text="Solver-decided: Domain::ends_with equals the whole-label, ASCII-case-insensitive suffix relation for 3-label names against suffixes of 0..4 labels with all octets symbolic (so every case mix); compare_longest_suffix orders longer suffixes first, antisymmetric, Equal only for identical suffixes.",
-                note="NOT decided: the selection loop and action dispatch inside the async DnsRouteHandler::handle_query (reaches the tokio/socket stack: kani-compiler ICE; its lifted synchronous copy runs CBMC out of memory beyond 1 route - harnesses kept in the thorough tier and reported inconclusive), which upstream receives a forwarded query."),
+    "C15": dict(engine="kani+mirsym", technique=KB + " of the suffix relation and ordering kernels; symbolic execution of rustc MIR into SMT (z3) of the lifted route-selection loop with native replay", design="3/C15",
+                text="Solver-decided: Domain::ends_with equals the whole-label, ASCII-case-insensitive suffix relation for 3-label names against suffixes of 0..4 labels with all octets symbolic (so every case mix); compare_longest_suffix orders longer suffixes first, antisymmetric, Equal only for identical suffixes. (mirsym) the selection loop and action dispatch of DnsRouteHandler::handle_query (async body lifted verbatim, executed from MIR together with ends_with and compare_longest_suffix): for 3 routes whose suffix lengths range over every ordering of 0..3 labels (16 shapes quick, all 64 thorough), all octets, actions and RD symbolic: outcome = action of the matching suffix with most labels; forge-nxdomain never goes upstream; forward only to that route's server and only with RD; no match = no route.",
+                note="Assumes the syntactic lifting preserves the body (lock = identity, next handler = recording stub, config/message replaced by views holding exactly the fields read). NOT decided: which upstream socket actually receives the query, multi-octet labels beyond the Kani kernel's bounds, > 3 routes. Equal-length suffixes with different actions are documented-silent and left unconstrained."),
     "C16": dict(technique=KB + " of the token bucket with a symbolic clock (inductive potential-function step) and of the lifted cost expression", design="3/C16",
                 text="Solver-decided: one charge attempt from an arbitrary reachable bucket state under an arbitrary non-decreasing clock never releases more than credit + rate*dt (telescopes to burst + rate*elapsed for histories of any length; cross-checked directly for 2-3 attempts); a source idle for the refill period is granted the minimum cost should_ratelimit charges (constant extracted from the source on every run).",
                 note="NOT decided: the two-bucket hashing in IpRateLimiter::check (async, tokio locks, SipHash), the check-then-deplete race under concurrent packets, and the whole cookie sub-claim (HMAC-SHA-256 is not something a SAT back end inverts). Clock values < B/R seconds and the year-2106 wrap are outside the bound."),
@@ -57,7 +60,6 @@ PENDING = {}
 
 NOT_APPLICABLE = {
     "C18": "persistence across restart/upgrade/crash lives in SQLite's file format, journal and fsync behind FFI and the filesystem; neither Kani nor the MIR->SMT encoder executes it, and a model of SQLite durability would be an assumption rather than the code",
-    "C03": "create_in_reply / create_outquery are async fns that statically reach the tokio/socket/HMAC stack (kani-compiler ICE during reachability; Kani refuses to stub async fns); the lifted synchronous copy clones record vectors of enum-with-heap values, which runs CBMC out of memory; coroutine MIR is outside the MIR->SMT encoder. Not claimed in this round.",
     "C04": "serialise_with_size and the DNS parser need symbolic-length vector copies and a domain-compression tree of heap nodes: measured out of CBMC's reach (>15 min / out of memory) even on 35-octet skeletons; per-transport size limits live in tokio socket tasks. Not claimed in this round.",
     "C11": "policy evaluation runs over HashMap/HashSet-valued option tables (apply_policy, ResponseOptions): not executable by Kani; the MIR->SMT encoder has no map/trait-object (DhcpOptionTypeValue serialise) summaries yet. Not claimed in this round.",
     "C14": "DNS decode/encode round trip: parser and compressor are out of CBMC's reach on symbolic input (symbolic-length copies, recursive heap tree; measured >15 min on 18 symbolic octets). Not claimed in this round.",
